@@ -4,17 +4,18 @@
 cd /verif || exit 2
 bad=0
 run() { # prop diff
-  out=$(GVC_TIMEOUT_S=10 selftest/run_mutant.sh "$1" "$2" 6 2>&1)
+  out=$(GVC_TIMEOUT_S=${GVC_MUT_TIMEOUT:-15} selftest/run_mutant.sh "$1" "$2" 6 2>&1)
   if echo "$out" | grep -q "^VIOLATION property=$1 "; then
     echo "caught  $1 $(basename $(dirname $2))/$(basename $2): $(echo "$out" | grep -m1 '^VIOLATION' | sed 's/.*obligation=//' | cut -c1-110)"
   else
     echo "MISSED  $1 $2"; echo "$out" | tail -3; bad=1
   fi
 }
-for d in selftest/mutants/m_c*.diff; do
+# (the heavy properties last: C18, C04)
+for d in $(ls selftest/mutants/m_c*.diff | grep -v "m_c04_\|m_c18_") $(ls selftest/mutants/m_c18_*.diff selftest/mutants/m_c04_*.diff); do
   p=$(basename $d | sed 's/m_c\([0-9]*\)_.*/C\1/')
   run $p /verif/$d
 done
 run C12 /verif/selftest/mutants/m_exec_1.diff; run C09 /verif/selftest/mutants/m_exec_2.diff; run C12 /verif/selftest/mutants/m_exec_3.diff; run C09 /verif/selftest/mutants/m_exec_4.diff; run C09 /verif/selftest/mutants/m_exec_5.diff
-for s in seeded/C*/patch.diff; do run $(basename $(dirname $s)) /verif/$s; done
+for s in $(ls seeded/C*/patch.diff | grep -v "C04\|C18") seeded/C18/patch.diff seeded/C04/patch.diff; do run $(basename $(dirname $s)) /verif/$s; done
 exit $bad
